@@ -29,6 +29,7 @@ type FuncResult struct {
 	Paths int
 	Abstracted []string
 	Mode  string
+	GenSeconds float64
 }
 
 // verifyFuncs generates and discharges the obligations of the selected functions.
@@ -40,8 +41,8 @@ func verifyFuncs(p *Program, keys []string, o runOpts) []*FuncResult {
 	var wg sync.WaitGroup
 	workers := runtime.NumCPU()
 	// each query races three solvers, so run fewer queries at once
-	if workers > 6 {
-		workers = workers / 2
+	if workers > 4 {
+		workers = workers - 2
 	}
 	var coverMu sync.Mutex
 	coverSat := map[string]bool{}
@@ -65,7 +66,7 @@ func verifyFuncs(p *Program, keys []string, o runOpts) []*FuncResult {
 				} else {
 					ob.Result = Solve(ob.Query, o.workdir, ob.Name, o.timeout, o.all)
 				}
-				if ob.Cover && ob.Result.Status == "sat" {
+				if ob.Cover && (ob.Result.Status == "sat" || ob.Result.Status == "unknown") {
 					coverMu.Lock()
 					coverSat[ob.Name] = true
 					coverMu.Unlock()
@@ -103,7 +104,9 @@ func verifyFuncs(p *Program, keys []string, o runOpts) []*FuncResult {
 					jobs <- ob
 				}
 			}
+			t0 := time.Now()
 			fe := verifyFunction(p, fn, c, emit, o.maxPaths)
+			fr.GenSeconds = time.Since(t0).Seconds()
 			fr.Errs = fe.errs
 			fr.Paths = fe.paths
 			fr.Abstracted = fe.abstracted
@@ -181,7 +184,7 @@ func cmdVerify(args []string) {
 				nBad++
 			}
 		}
-		fmt.Printf("%-70s paths=%d obligations=%d discharged=%d failed=%d\n", shortFn(fr.Fn), fr.Paths, nOK+nBad, nOK, nBad)
+		fmt.Printf("%-70s paths=%d obligations=%d discharged=%d failed=%d gen=%.1fs\n", shortFn(fr.Fn), fr.Paths, nOK+nBad, nOK, nBad, fr.GenSeconds)
 		for _, e := range fr.Errs {
 			fmt.Printf("   ERROR %s\n", e)
 			bad++
